@@ -63,10 +63,13 @@ def _first_diff(c):
     if len(impl) != n:
         return (0, "broken")
     broken = None
+    outside = False
     for i in range(n):
         s = spec[i] if i < len(spec) else "-"
         m = model[i] if i < len(model) else None
-        if s == "?":
+        if s == "?" and req[i].startswith("set "):
+            outside = True      # a region reaching beyond 2^64: the specification has no state from here on
+        if outside or s == "?":
             # this operation is outside the property's domain (after a region reaching beyond 2^64 every later operation
             # is, too): what falcon does here (wrap, panic, accept) is not fixed by the property, and a rewrite that
             # changes it must not raise an alarm.  Later operations with a specified answer are still judged.
